@@ -35,10 +35,13 @@ def run(tier):
     cases = []
     for r in recs:
         smt = r["smt"]
-        if "exc" in smt and smt.get("stage") == "encode":
-            continue
         if "-push-basic" in r["argv"]:
             continue            # C06 records that this option does not produce a meaningful encoding; priced separately there
+        if "exc" in smt and smt.get("stage") == "encode":
+            # the encoder raised: no model exists; if the specification is realizable within its bounds this is the same
+            # failure as unsatisfiable hard constraints (judged by SFSCost)
+            smt = dict(smt, models=[], complete=True, softs=[], theta={}, outcome="encode-exception")
+            r = dict(r, smt=smt)
         ps = sfsproj.proj_sfs(r["sfs"])
         theta = smt.get("theta", {})
         softs = []
